@@ -9,6 +9,7 @@ CONSTANTS
   KeyPart <- KeyPartDef
   DefKey <- DefKeyDef
   Invalids <- InvalidsDef
+  Conns = {1, 2}
   Strict = FALSE
   MaxCmd = 1000
   EmitAt = 45
